@@ -11,7 +11,7 @@
      level0_nonzero   :  the sub-size-1 evaluation is not identically zero (the complementary input class is
                          the known finding `level0-all-zero`, see C09_iterate_level0_all_zero_* below).        *)
 From Coq Require Import Reals List Bool Arith Lra.
-From PAV Require Import Base.NumOps Base.Res Base.Sum Model.C09 Proofs.C09 Model.C09h Proofs.C09h.
+From PAV Require Import Base.NumOps Base.Res Base.Sum Model.C09 Proofs.C09 Model.C09h Proofs.C09h Proofs.C09t.
 Import ListNotations.
 Local Open Scope R_scope.
 
@@ -220,6 +220,30 @@ Theorem C09_grid_history_iterate : forall m (ps og : R * R) vals thr rel steps (
   = map (fun f => Ok (@spec_iterate ROps f m ps og thr rel steps)) fs.
 Proof. exact grid_history_iterate_spec. Qed.
 
+(* ---- 6. integer- and bool-valued user functions / sub-values (indicator, step, count functions): binning is the EXACT
+        rational mean -- (sum of the s^2 integer sub-values) / s^2, for an indicator the covered fraction -- never truncated *)
+Theorem C09_integer_valued_bins_to_exact_rational_mean : forall (g : R * R -> Z) m (ps og : R * R) ss,
+  shape_okP m ss -> ps_okR ps ->
+  @array_via_func ROps (fun p => IZR (g p)) m ps og ss =
+  map (fun cs => IZR (sumZ (map g (@block ROps ps (fst cs) (snd cs)))) / INR (snd cs * snd cs))
+      (combine (@spec_centres ROps m ps og) ss).
+Proof. exact integer_valued_bins_to_exact_rational_mean. Qed.
+Theorem C09_indicator_bins_to_covered_fraction : forall (P : R * R -> bool) m (ps og : R * R) ss,
+  shape_okP m ss -> ps_okR ps ->
+  @array_via_func ROps (fun p => if P p then 1 else 0) m ps og ss =
+  map (fun cs => INR (length (filter P (@block ROps ps (fst cs) (snd cs)))) / INR (snd cs * snd cs))
+      (combine (@spec_centres ROps m ps og) ss).
+Proof. exact indicator_bins_to_covered_fraction. Qed.
+Theorem C09_bin_of_integers_is_exact_rational_mean : forall (arr : list Z) m ss,
+  shape_okP m ss -> length arr = list_sum (map (fun s => (s * s)%nat) ss) ->
+  @binned ROps (map IZR arr) m ss =
+  map (fun blk => IZR (sumZ blk) / INR (length blk)) (chop (map (fun s => (s * s)%nat) ss) arr).
+Proof. exact bin_of_integers_is_exact_rational_mean. Qed.
+(* a half-covered pixel bins to 1/2, not to 0: one pixel, sub-size 2, indicator of y > 0 *)
+Example C09_ex_half_covered_pixel :
+  @array_via_func ROps (fun p => if Rltb 0 (fst p) then 1 else 0) [[false]] (1, 1) (0, 0) [2%nat] = [1 / 2].
+Proof. exact half_covered_pixel_bins_to_half. Qed.
+
 Print Assumptions C09_hyp_shape.
 Print Assumptions C09_hyp_scales.
 Print Assumptions C09_hyp_thr.
@@ -257,3 +281,7 @@ Print Assumptions C09_grid_history_pure.
 Print Assumptions C09_grid_history_uniform_map.
 Print Assumptions C09_grid_history_uniform_int.
 Print Assumptions C09_grid_history_iterate.
+Print Assumptions C09_integer_valued_bins_to_exact_rational_mean.
+Print Assumptions C09_indicator_bins_to_covered_fraction.
+Print Assumptions C09_bin_of_integers_is_exact_rational_mean.
+Print Assumptions C09_ex_half_covered_pixel.
